@@ -179,8 +179,12 @@ def lifecycle(run):
         return {'op': 'SetFixed', 'idx': i, 'flag': b, 'q': '-', 'target': 0, 'maxIter': 0, 'fixFirst': False, 'verbose': False, 'tol': '-'}
     rl = {'op': 'Reload', 'q': '-', 'target': 0, 'maxIter': 0, 'fixFirst': False, 'verbose': False, 'tol': '-', 'idx': 0, 'flag': False}
     names = ['se2plain', 'se2plainc', 'se3reg', 'se3regc', 'se2plainids', 'se3idsreg', 'se2', 'se3', 'se2c', 'se3c', 'mixed', 'se2fix', 'se3fix', 'r2', 'r3', 'r2c', 'se2big', 'se2weighted', 'se2alias', 'se2shared']
+    def ed(op, i):
+        return {'op': op, 'idx': i, 'flag': False, 'q': '-', 'target': 0, 'maxIter': 0, 'fixFirst': False, 'verbose': False, 'tol': '-'}
     behaviours = []
     for n in names:
+        # (the user's edits before an export: what is written is the CURRENT pose / measurement / information)
+        behaviours += [(n, [q('to_g2o'), ed('SetPose', 2), ed('SetMeas', 1), ed('SetMeas', 2), ed('SetMeas', 3), rl, q('calc_chi2'), ed('SetPose', 1), ed('SetMeas', 4), ed('SetMeas', 5), rl, q('calc_chi2')])]
         behaviours += [(n, [rl, q('calc_chi2'), rl]), (n, [opt(2), rl, opt(3), q('to_g2o'), rl, opt(1, '0', False)]),
                        (n, [fx(2, True), fx(3, True), rl, q('calc_chi2'), opt(2), rl])]
     events = []
